@@ -13,7 +13,10 @@
 // Ops (a case starts with `reset [next=N]`):
 //
 //	open c=K [cbp=<h|c>] [ce=<1|f>] [oa=<k|p>] | in c=K it=<f:pk,..|bad|err|eof> | rd c=K [w=0] | rds c=K [w=0] | wr c=K ok=<0|1> |
-//	adv dt=MS | kick c=K | okick c=K | push c=K | spush c=K | drain | end
+//	adv dt=MS | kick c=K | okick c=K | dokick | push c=K | spush c=K | drain | end
+//
+// `reset kh=1`: the owner's ClientSessions has a custom IKickHandler (like the mmo gate's: a notice is pushed to the
+// session at once, the id is kept, ClientSessions.DoKick comes later: `dokick` = the DoKick of the oldest id kept).
 package c05
 
 import (
@@ -238,6 +241,26 @@ type H struct {
 	cbH     int
 	x       *hx.T
 	armed   string
+	kh      bool     // a custom kick handler is installed
+	pendK   []uint32 // ids the kick handler was handed and has not yet passed to DoKick
+}
+
+// kickH: a custom impls.IKickHandler in the way of the mmo gate's (servers/gate/handler/kick_handler.go): tell the client,
+// close a little later through ClientSessions.DoKick
+type kickH struct{ h *H }
+
+func (k *kickH) HandleKick(ns *service.NodeService, ss *impls.ClientSessions, id uint32) {
+	var c *pconn
+	if fs := ss.GetSession(id); fs != nil {
+		if s, ok := fs.Session.(pi.IClientSession); ok {
+			c = k.h.connOf(s)
+		}
+	}
+	// (a notice that would park the owner on a full send queue is not pushed)
+	if c == nil || !k.h.wouldBlock(c) {
+		ss.PushMsg(&msgs.PushMsg{Ids: []uint32{id}, Route: "onKick", Data: []byte(`{"why":"kicked"}`)})
+	}
+	k.h.pendK = append(k.h.pendK, id)
 }
 
 func (h *H) connOf(s pi.IClientSession) *pconn {
@@ -328,6 +351,10 @@ func (r *rec) Process(fs *cs.FrontSession, m *msgs.ClientMsg) {
 	}
 	if fs == nil {
 		c.ow = append(c.ow, fmt.Sprintf("n%d", m.ClientReqId))
+	} else if !sentMatches(m) {
+		// handled with a route/payload other than the one that arrived under this id (the message may have waited in the
+		// owner's queue while the reader went on)
+		c.ow = append(c.ow, fmt.Sprintf("p%d", m.ClientReqId))
 	} else {
 		c.ow = append(c.ow, fmt.Sprintf("m%d", m.ClientReqId))
 	}
@@ -449,6 +476,20 @@ var bigBody = []byte(strings.Repeat("y", 300000))
 // badMsgBody: a Data packet body that message.Decode rejects
 var badMsgBody = []byte{0x00}
 
+// sentAs: route and payload of the data message `d<n>` as the client sends it.  The payload is a function of the id, so that
+// what the owner's handler is given for message n can be compared with what was sent under n (same lengths as ever: 7 bytes
+// for even ids, n%37 for odd ones - a request, the id is what the owner sees, longer route and payload)
+func sentAs(n uint32) (string, []byte) {
+	if n%2 == 0 {
+		return "gate.api.echo", []byte(fmt.Sprintf(`{"x":%d}`, (n/2)%10))
+	}
+	b := make([]byte, int(n%37))
+	for i := range b {
+		b[i] = byte('a' + (int(n)*7+i*3)%26)
+	}
+	return "chat.room.say", b
+}
+
 func encPkt(w string) ([]byte, bool) {
 	switch {
 	case w == "hs1":
@@ -466,13 +507,8 @@ func encPkt(w string) ([]byte, bool) {
 		if err != nil {
 			return nil, false
 		}
-		var mb []byte
-		if n%2 == 0 {
-			mb, err = msgEnc.Encode(&message.Message{Type: message.Request, ID: uint(n), Route: "gate.api.echo", Data: []byte(`{"x":1}`)})
-		} else {
-			// odd ids: still a request (the id is what the owner sees), longer route and payload
-			mb, err = msgEnc.Encode(&message.Message{Type: message.Request, ID: uint(n), Route: "chat.room.say", Data: []byte(strings.Repeat("y", int(n%37)))})
-		}
+		route, payload := sentAs(uint32(n))
+		mb, err := msgEnc.Encode(&message.Message{Type: message.Request, ID: uint(n), Route: route, Data: payload})
 		if err != nil {
 			panic(err)
 		}
@@ -538,7 +574,7 @@ func (h *H) drain() {
 	}
 }
 
-func (h *H) reset(next int, hasNext bool) string {
+func (h *H) reset(next int, hasNext bool, kh bool) string {
 	// leftovers of the previous case (only when it had no `end`)
 	if h.conns != nil {
 		h.finish()
@@ -548,6 +584,10 @@ func (h *H) reset(next int, hasNext bool) string {
 	h.bySess = map[pi.IClientSession]*pconn{}
 	h.sc = sche.NewSche()
 	h.css = impls.NewClientSessions("gate-1")
+	h.kh, h.pendK = kh, nil
+	if kh {
+		h.css.SetKickHandler(&kickH{h: h})
+	}
 	if hasNext {
 		if !setCounter(h.css, uint32(next)) {
 			return "none"
@@ -712,7 +752,8 @@ func (h *H) exec(op string) string {
 	case "reset":
 		h.armed = ""
 		_, has := hx.KV(ws, "next")
-		return h.reset(hx.KVInt(ws, "next"), has)
+		khv, _ := hx.KV(ws, "kh")
+		return h.reset(hx.KVInt(ws, "next"), has, khv == "1")
 	case "open":
 		if c != nil || k == 0 {
 			return "none"
@@ -793,6 +834,16 @@ func (h *H) exec(op string) string {
 		h.css.Kick(c.sess.GetId())
 		synctest.Wait()
 		return h.obs(k, "")
+	case "dokick":
+		// the kick handler's delayed DoKick of the oldest id it was handed
+		if len(h.pendK) == 0 {
+			return "none"
+		}
+		id := h.pendK[0]
+		h.pendK = h.pendK[1:]
+		h.css.DoKick(id)
+		synctest.Wait()
+		return h.obs(0, "") + fmt.Sprintf(" kid=%d", id)
 	case "push":
 		if c == nil {
 			return "none"
@@ -1013,6 +1064,15 @@ func (g *gen) next(maxConn int) string {
 	if c.filled && !closed && R.Intn(3) == 0 {
 		return "adv dt=10000" // the heartbeat tick parks on the full queue
 	}
+	if h.kh {
+		// a front-end with a kick handler: kick requests for sessions that are up, the handler's DoKick some time later
+		if len(h.pendK) > 0 && R.Intn(4) == 0 {
+			return "dokick"
+		}
+		if g.ph[k] >= 2 && R.Intn(10) == 0 {
+			return fmt.Sprintf("okick c=%d", k)
+		}
+	}
 	r := R.Intn(100)
 	// mostly: what moves this connection forward
 	switch {
@@ -1199,6 +1259,10 @@ func TestRun(t *testing.T) {
 					// ids around the wrap of the 32-bit counter (0 is skipped)
 					reset = fmt.Sprintf("reset next=%d", 4294967295-uint32(x.R.Intn(4)))
 					x.Count("case:id-wrap")
+				}
+				if x.R.Intn(5) == 0 {
+					reset += " kh=1"
+					x.Count("case:kick-handler")
 				}
 				run(reset)
 				if x.R.Intn(15) == 0 {
